@@ -14,7 +14,7 @@ import numpy as np
 
 from common import Ctx, enc, q, unq, frac, run_model, ModelError, import_amisc
 import lagr
-from lagr import ATOL, within
+from lagr import within
 from p_misc import margin
 
 
@@ -76,12 +76,13 @@ def interp_cases(ctx: Ctx):
             for k, v in enumerate(names):
                 r = rng.random(); lo, hi = doms[v]
                 node = rng.choice(grids1[v])
+                sp = (max(grids1[v]) - min(grids1[v])) or 1.0
                 if r < 0.25:
                     x.append(node)
                 elif r < 0.4:
-                    x.append(node + rng.choice([-1, 1]) * 0.5e-8)
+                    x.append(node + rng.choice([-1, 1]) * 0.5e-8 * sp)
                 elif r < 0.5:
-                    x.append(node + rng.choice([-1, 1]) * 4e-8)
+                    x.append(node + rng.choice([-1, 1]) * 4e-8 * sp)
                 elif r < 0.9:
                     x.append(lo + (hi - lo) * rng.random())
                 else:
@@ -223,7 +224,7 @@ def component_cases(ctx: Ctx):
                     if r < 0.3:
                         x.append(float(rng.choice(td.x_grids[v])))
                     elif r < 0.4:
-                        x.append(float(rng.choice(td.x_grids[v])) + rng.choice([-1, 1]) * 0.5e-8)
+                        x.append(float(rng.choice(td.x_grids[v])) + rng.choice([-1, 1]) * 0.5e-8 * (hi - lo))
                     elif r < 0.9:
                         x.append(lo + (hi - lo) * rng.random())
                     else:
